@@ -1,8 +1,10 @@
 #!/usr/bin/env python3
 
 import logging
+import os
 import re
 import sys
+from contextlib import contextmanager
 from functools import cached_property
 from io import BytesIO
 from pathlib import Path
@@ -18,6 +20,24 @@ from tola.fasta.simple import FastaSeq, revcomp_bytes_io
 
 class IndexUsageError(Exception):
     """Unexpected usage of FastaIndex"""
+
+
+@contextmanager
+def atomic_text_writer(path: Path):
+    """
+    Yields a file handle open for writing text to a temporary file alongside
+    `path`, which is renamed to `path` once it has been completely written
+    and closed. Ensures that `path` is never seen half-written by another
+    process, or left half-written if this process fails.
+    """
+    tmp_path = path.with_name(f"{path.name}.{os.getpid()}.tmp")
+    try:
+        with tmp_path.open("w") as tmp_fh:
+            yield tmp_fh
+        tmp_path.replace(path)
+    except BaseException:
+        tmp_path.unlink(missing_ok=True)
+        raise
 
 
 class FastaInfo:
@@ -133,7 +153,7 @@ class FastaIndex:
             raise IndexUsageError(msg)
         if self.fai_file.exists():
             logging.warning(f"Overwriting FAI index file '{self.fai_file}'")
-        with self.fai_file.open("w") as idx_fh:
+        with atomic_text_writer(self.fai_file) as idx_fh:
             for name, info in idx_dict.items():
                 idx_fh.write(info.fai_row(name))
 
@@ -150,7 +170,7 @@ class FastaIndex:
             raise IndexUsageError(msg)
         if self.agp_file.exists():
             logging.warning(f"Overwriting AGP assembly file '{self.agp_file}'")
-        with self.agp_file.open("w") as agp_fh:
+        with atomic_text_writer(self.agp_file) as agp_fh:
             format_agp(asm, agp_fh)
 
     def run_indexing(self):
